@@ -381,14 +381,15 @@ class AuditFirstConn(Harness):
     prop, ob = PROP, 'O7'
     width = 64
 
-    def __init__(self, n, sshv=2, end='close', framed=False, dom='any'):
-        self.n, self.sshv, self.end, self.framed, self.dom = n, sshv, end, framed, dom
-        self.name = 'audit-first-%s%d-v%d-%s-%s' % ('framed' if framed else 'raw', n, sshv, end, dom)
+    def __init__(self, n, sshv=2, end='close', framed=False, dom='any', lead=0):
+        # lead: that many well-formed SSH_MSG_DEBUG packets come first (a peer may send them at any time); what follows them is as arbitrary as before
+        self.n, self.sshv, self.end, self.framed, self.dom, self.lead = n, sshv, end, framed, dom, lead
+        self.name = 'audit-first-%s%d-v%d-%s-%s%s' % ('framed' if framed else 'raw', n, sshv, end, dom, ('-after%ddebug' % lead) if lead else '')
         self.cost = (10 ** n if dom == 'any' and not framed else n)
         self.deadline_s = 1500
 
     def params(self):
-        return {'n': self.n, 'sshv': self.sshv, 'end': self.end, 'framed': self.framed, 'dom': self.dom}
+        return {'n': self.n, 'sshv': self.sshv, 'end': self.end, 'framed': self.framed, 'dom': self.dom, 'lead': self.lead}
 
     def inputs(self):
         if self.dom == 'any':
@@ -405,6 +406,8 @@ class AuditFirstConn(Harness):
         x = inp['x']
         if self.sshv == 2:
             data = AE.frame(bytes([20]) + x) if self.framed else x
+            dbg = AE.frame(bytes([4, 0]) + AE.sshstr(b'debug text') + AE.sshstr(b''))
+            data = dbg * self.lead + data
             conns = [AE.Conn([BANNER, data] if len(data) else [BANNER], self.end)]
             r = AE.run_audit(M, conns, ssh1=False)
         else:
@@ -883,6 +886,10 @@ def tasks(tier):
     for n in ((5, 8, 12) if q else range(4, 17)):
         T.append(AuditFirstConn(n, 2, 'close', False, 'lower'))
     T.append(AuditFirstConn(4, 2, 'timeout', False, 'lower'))
+    for lead in (1, 2):
+        for n in (0, 2, 6):
+            T.append(AuditFirstConn(n, 2, 'close', False, 'any', lead))
+        T.append(AuditFirstConn(62, 2, 'close', True, 'any', lead))      # even a complete KEXINIT after debug messages: how the tool treats it is its choice - only the end state is checked
     for n in ((0, 15, 16, 20) if q else list(range(0, 24, 2))):
         T.append(AuditFirstConn(n, 2, 'close', True))
     for n in ((0, 2) if q else range(0, 4)):
@@ -941,7 +948,7 @@ def harness_by_name(name, params):
     if k.startswith('version-fallback'):
         return VersionFallback(params['n'])
     if k.startswith('audit-first'):
-        return AuditFirstConn(params['n'], params['sshv'], params['end'], params['framed'], params.get('dom', 'any'))
+        return AuditFirstConn(params['n'], params['sshv'], params['end'], params['framed'], params.get('dom', 'any'), params.get('lead', 0))
     if k.startswith('banner-version'):
         return BannerVersion(params['product'], params['n'])
     if k.startswith('client-stall'):
